@@ -89,6 +89,53 @@ def abs_moves(start_black, toks):
     return res
 
 
+RPROMO = {None: 6, 2: 1, 3: 2, 4: 3, 5: 4}    # chess stub piece type -> rawr piece index (6 = no promotion)
+HEADER = {"1-0": "W", "0-1": "B", "1/2-1/2": "D"}
+
+
+def rel_toks(moves):
+    """absolute (from, to, promotion) triples from the standard start position -> the model's side-relative move tokens"""
+    res, black = [], False
+    for f, to, p in moves:
+        if black:
+            f, to = f ^ 56, to ^ 56
+        res.append(f"{f}-{to}-{RPROMO[p]}")
+        black = not black
+    return res
+
+
+MODELLED = ("num_wins num_draws num_losses num_games castle_same castle_opposite total_captures total_noncaptures total_moves checks nonchecks "
+            "early_captures mid_captures late_captures extreme_captures capture_distance noncapture_distance game_length short_games medium_games "
+            "long_games extreme_games num_win_ahead num_win_equal num_win_behind early_pawn_pushes mid_pawn_pushes late_pawn_pushes total_pawn_pushes "
+            "total_pawn_pushes_towards_king num_rook_threats num_bishop_threats").split()
+
+
+def stats_diff(tool, model_line):
+    """the counters of model/StyleGame.analyse_games against the tool's Stats object, field by field (exact integers)"""
+    d = dict(x.split("=", 1) for x in model_line.split(";") if "=" in x)
+    bad = []
+    for k in MODELLED:
+        tv = tool.get(k)
+        mv = d.get(k)
+        if mv is None:
+            bad.append(f"{k}: missing in the model's answer")
+            continue
+        if k == "game_length":
+            t = {i: v for i, v in enumerate(tv) if v}
+            m = {int(a): int(b) for a, b in (it.split(":") for it in mv.split(",") if it)}
+            m = {a: b for a, b in m.items() if b}
+            if t != m:
+                bad.append(f"game_length: tool {t} model {m}")
+        elif isinstance(tv, list):
+            ml = [int(x) for x in mv.split(",")] if mv else []
+            if [int(x) for x in tv] != ml:
+                bad.append(f"{k}: tool {tv} model {ml}")
+        else:
+            if str(int(tv)) != mv:
+                bad.append(f"{k}: tool {int(tv)} model {mv}")
+    return bad, d
+
+
 def encode_stats(st):
     gl = ",".join(f"{i}:{v}" for i, v in enumerate(st["game_length"]) if v)
     parts = []
@@ -132,6 +179,7 @@ def check_C20(run):
                        "analysed for White or Black by the REAL style.py (python-chess replaced by tools/chess_stub): no exception, "
                        "is_valid true after every game, every score a finite float in [0,1]; the statistics are then fed to the Coq model "
                        "(exact rationals): scores agree to 1e-9, and the premises of the theorems (SInv) are evaluated exactly on them; "
+                       "the same game sets are analysed by the Coq model of analyse_game / Stats.add_* / finish_game (model/StyleGame.v, extracted) and all 32 modelled counters must be equal; "
                        "several filters side by side in one interpreter (as main() runs them) must each report exactly what they report alone; "
                        "non-trivial = the set contains at least one capture and one pawn move")
     start = "rnbqkbnr/pppppppp/8/8/8/8/PPPPPPPP/RNBQKBNR w KQkq - 0 1"
@@ -146,6 +194,7 @@ def check_C20(run):
         toks = o.split(" ") if o else []
         mv = abs_moves(False, toks)
         if mv is not None:
+            assert rel_toks(mv) == toks, (toks, rel_toks(mv))
             games.append({"moves": mv, "result": rng.choice(["1-0", "0-1", "1/2-1/2"])})
     # special games: only knight shuffles (no captures, no pawn moves)
     shuffle = [(6, 21, None), (62, 45, None), (21, 6, None), (45, 62, None)]
@@ -283,10 +332,38 @@ def check_C20(run):
         if d.get("valid") != ("1" if o["valid"] else "0"):
             nv += 1
             run.violation("model-mismatch", "is_valid differs from the model's", {"statistics": mreq[midx.index(i)][:600]}, found_input=False)
-    run.cov["traces_validated_against_impl"] = len(mreq)
+    # the game layer: model/StyleGame.analyse_games on the same games, every modelled counter compared exactly
+    greq, gidx = [], []
+    for i, (job, o) in enumerate(zip(jobs, res)):
+        if "filters" in job or "crash" in o or "stats" not in o:
+            continue
+        greq.append("stylegame\t" + job["side"] + "\t" + "|".join(HEADER[g["result"]] + ":" + " ".join(rel_toks(g["moves"])) for g in job["games"]))
+        gidx.append(i)
+    gout = vlib.run_model_par(greq)
+    ngame_plies = 0
+    for i, line in zip(gidx, gout):
+        job, o = jobs[i], res[i]
+        ngame_plies += sum(len(g["moves"]) for g in job["games"])
+        desc = {"side": job["side"], "games": [{"result": g["result"], "plies": len(g["moves"]), "moves(from,to,promo)": g["moves"][:60]} for g in job["games"]]}
+        if line.startswith("ERROR"):
+            nv += 1
+            run.violation("model-mismatch", "the model of analyse_game could not run the game set: " + line[:200], desc, found_input=False)
+            continue
+        bad, d = stats_diff(o["stats"], line)
+        if d.get("valid") != ("1" if o["valid"] else "0"):
+            bad.append(f"is_valid: tool {o['valid']} model {d.get('valid')}")
+        if bad:
+            nv += 1
+            if nv <= 25:
+                run.violation("model-mismatch", "analyse_game: the tool's statistics differ from the model's (model/StyleGame.v) on this game set: " + "; ".join(bad[:6]),
+                              desc, found_input=False)
+    run.cov["game_layer"] = {"game_sets_compared_counter_by_counter": len(greq), "plies": ngame_plies, "counters": len(MODELLED)}
+    run.cov["traces_validated_against_impl"] = len(mreq) + len(greq)
     run.sample({"job": {"side": jobs[0]["side"], "games": [len(g["moves"]) for g in jobs[0]["games"]]}, "tool": {k: res[0].get(k) for k in ("valid", "agg", "pos", "pp")}})
-    run.cov["explanation"] = ("C20_*_in_unit: under SInv every feature is defined (no division by zero) and in [0,1], hence the three scores; "
-                              "SInv itself is observed on the tool's statistics for every generated game set; floats vs rationals to 1e-9; "
+    run.cov["explanation"] = ("C20_games_give_consistent_statistics_and_scores_in_unit: for every non-empty list of games of generated moves from the start position, "
+                              "the model of analyse_game (model/StyleGame.v) yields statistics with is_valid and SInv, hence every feature is defined and in [0,1] and so are the three scores; "
+                              "the model of analyse_game is compared counter by counter (32 counters, exact integers) with the real tool on every generated game set; "
+                              "SInv is additionally evaluated on the tool's own statistics; floats vs rationals to 1e-9; "
                               "python-chess is replaced by a stub (trusted)")
 
 
